@@ -444,8 +444,24 @@ func runIssue(kind, family, alg, class string, dense bool) (o issueObs) {
 			if _, e := asn1.Unmarshal(sig.Bytes[1:], &rs); e == nil {
 				n := orderOf(signer.Public())
 				if n != nil {
+					type variant struct {
+						name string
+						sig  []byte
+					}
+					var vs []variant
 					for name, v := range map[string][2]*big.Int{"s+n": {rs.R, new(big.Int).Add(rs.S, n)}, "r+n": {new(big.Int).Add(rs.R, n), rs.S}} {
 						nsig, _ := asn1.Marshal(struct{ R, S *big.Int }{v[0], v[1]})
+						vs = append(vs, variant{name, nsig})
+					}
+					// the same two numbers followed by something else INSIDE the SEQUENCE: not SEQUENCE { r, s } any more
+					x3, _ := asn1.Marshal(struct{ R, S, T *big.Int }{rs.R, rs.S, big.NewInt(1)})
+					xn, _ := asn1.Marshal(struct {
+						R, S *big.Int
+						N    asn1.RawValue
+					}{rs.R, rs.S, asn1.RawValue{Tag: 5}})
+					vs = append(vs, variant{"SEQUENCE { r, s, INTEGER 1 }", x3}, variant{"SEQUENCE { r, s, NULL }", xn})
+					for _, v := range vs {
+						name, nsig := v.name, v.sig
 						bits, _ := asn1.Marshal(asn1.BitString{Bytes: nsig, BitLength: len(nsig) * 8})
 						body := append(append(append([]byte(nil), tbs.FullBytes...), alg.FullBytes...), bits...)
 						m, _ := asn1.Marshal(asn1.RawValue{Class: 0, Tag: 16, IsCompound: true, Bytes: body})
